@@ -49,8 +49,9 @@ def persistence_identity(eng, PROP):
     # persistence is the identity on records: every field of every persisted type is written by the derived Serialize impl under its own
     # name and required by the derived Deserialize impl (no skip / rename / default that would make a stored order differ from the written one)
     sd = eng.s.get('serde', {})
-    PERSISTED = ['ask_order::AskOrderV1', 'ask_order::AskOrderClass', 'ask_order::AskOrderStatus', 'bid_order::BidOrderV3', 'contract_info::ContractInfoV3',
-                 'version_info::VersionInfoV1', 'common::FeeInfo']
+    from wire import persisted_types
+    PERSISTED = persisted_types(eng)     # found by role (value types of the four namespaces and the local types nested in them), not by name
+    eng.ob(len(PERSISTED) >= 7, PROP, 'anchor', 'persisted-types', 'expected at least 7 persisted record types (ask, class, status, bid, configuration, fee info, version), found %s' % PERSISTED)
     for ty in PERSISTED:
         adt = next((a for a in eng.s['adts'] if a['def'] == ty), None)
         eng.ob(adt is not None, PROP, 'anchor', ty, 'persisted type %s not found (fail closed)' % ty)
